@@ -42,6 +42,7 @@ def run(ck, fb):
     r09m(ck, fb)
     r09n(ck, fb)
     r09o(ck, fb)
+    r09q(ck, fb)
 
 
 PAIR_EXCEPTIONS = {
@@ -780,3 +781,29 @@ def r09o(ck, fb, R='R09o'):
                        'whose dataId / group / tenant contains \\x02 is acknowledged and applied under ANOTHER key (dataId a\\x02b, group t9 -> dataId a, '
                        'group b, tenant t9), the published key stays not-found' % fn, 'behind the key check')
     ck.floor(R, 'hand-over sites judged', n, 4)
+
+
+def r09q(ck, fb, R='R09q'):
+    ck.rule(R, '"reading a key returns exactly the content, type and description of the most recently applied publish": the applied log entry reaches '
+               'set_config as it was committed. In the handler of ConfigRaftCmd every field of SetConfigParam except config_type (normalised through '
+               'ConfigType, listed) is the field of the same name of the ConfigAdd entry, unchanged - not the result of a filter / map / default. '
+               'set_config reads None as "keep what is stored": turning Some("") into None makes a publish that clears the description keep the '
+               'description of an older publish')
+    hs = [b for b in fb.bodies.values() if re.search(r'ConfigActor as actix::Handler<rnacos::config::model::ConfigRaftCmd>>::handle', b.name) and b.aggregates(r'SetConfigParam$')]
+    ck.floor(R, 'bodies that build SetConfigParam from a raft command', len(hs), 1)
+    n = 0
+    for b in hs:
+        ck.analysed(b)
+        for (i, j, st) in b.aggregates(r'SetConfigParam$'):
+            rv = st['rv']
+            for f, o in zip(rv['fields'], rv['ops']):
+                if f == 'config_type':
+                    continue
+                n += 1
+                d = cfg.strip_calls(b, cfg.describe_operand(b, o))
+                ok = d['k'] == 'place' and d['fields'][-1:] == [f] and d['root']['k'] == 'arg'
+                ck.require(ok, R, 'ConfigAdd:%s-as-committed' % f, b.where(i),
+                           'SetConfigParam.%s is not the %s of the committed entry as it is (%s): what is applied differs from what was published - for '
+                           'the description: a publish with an empty description keeps the description of an older publish' % (f, f, cfg.fmt_desc(d)[:60]),
+                           'the entry\'s %s' % f)
+    ck.floor(R, 'SetConfigParam fields judged', n, 7)
